@@ -2,6 +2,7 @@ package mpx
 
 import (
 	"github.com/basecomplextech/baselibrary/alloc"
+	"github.com/basecomplextech/baselibrary/alloc/bytequeue"
 	"github.com/basecomplextech/baselibrary/async"
 	"github.com/basecomplextech/baselibrary/status"
 	"github.com/basecomplextech/spec/internal/zzverif"
@@ -78,6 +79,9 @@ type zzQueue struct {
 }
 
 func zzNewQueue() *zzQueue { return &zzQueue{wait: make(chan struct{}, 1)} }
+
+// ZZ_NewQueue overrides bytequeue.New inside the engine (the real queue sits on the alloc heap).
+func ZZ_NewQueue() bytequeue.Queue { return zzNewQueue() }
 
 func (q *zzQueue) Closed() bool { return q.closed }
 func (q *zzQueue) Clear()       { q.msgs = nil }
@@ -162,6 +166,8 @@ func ZZ_AcquireBuffer() alloc.Buffer { return &zzAllocBuf{} }
 func (z *zzAllocBuf) Len() int      { return len(z.b) }
 func (z *zzAllocBuf) Bytes() []byte { return z.b }
 func (z *zzAllocBuf) Grow(n int) []byte {
+	// frames larger than 4 KiB (and negative sizes on 32-bit wrap) are outside the kernels' claim
+	zzverif.Assume(n >= 0 && n <= 4096)
 	ln := len(z.b)
 	if cap(z.b)-ln < n {
 		nb := make([]byte, ln, 2*cap(z.b)+n+32)
@@ -185,3 +191,16 @@ func (z *zzAllocBuf) WriteString(s string) (int, error) { return copy(z.Grow(len
 func (z *zzAllocBuf) Reset()                            { z.b = z.b[:0] }
 func (z *zzAllocBuf) Rem() int                          { return cap(z.b) - len(z.b) }
 func (z *zzAllocBuf) Free()                             {}
+
+// zzFlag implements async.MutFlag.
+type zzFlag struct {
+	set bool
+	ch  chan struct{}
+}
+
+func zzNewFlag(set bool) *zzFlag      { return &zzFlag{set: set, ch: make(chan struct{})} }
+func (f *zzFlag) IsSet() bool         { return f.set }
+func (f *zzFlag) Wait() <-chan struct{} { return f.ch }
+func (f *zzFlag) Set()                { f.set = true }
+func (f *zzFlag) Unset()              { f.set = false }
+
